@@ -213,6 +213,34 @@ def run_history(case, res):
                 W.results[key] = val
                 if ok:
                     W.states.append((W.states[sti][0], new))
+        elif kind == "inplace_effect":
+            # GroundedEffect.apply mutates the state it is given (public API, used by the repository's tests):
+            # queries before and after must reflect the state's current content
+            if not W.operators or not W.states:
+                continue
+            oi = op["o"] % len(W.operators)
+            slot, name, args, o = W.operators[oi]
+            cands = [i for i, (s_slot, _) in enumerate(W.states) if W.domains[s_slot][0] == W.domains[slot][0]]
+            if not cands or not getattr(o, "grounded", False):
+                continue
+            private = W.states[cands[op["s"] % len(cands)]][1].copy()
+            lib_call(o.is_applicable, private)
+            lib_call(private.serialize)
+            effs = [e for e in o.grounded_effects]
+            if not effs:
+                continue
+            okm, _ = lib_call(effs[op["c"] % len(effs)].apply, private)
+            if okm:
+                fresh = rebuild_from_attributes(private)
+                a1, a2 = lib_call(o.is_applicable, private), lib_call(o.is_applicable, fresh)
+                t1, t2 = lib_call(private.serialize), lib_call(fresh.serialize)
+                same_text = t1[0] and t2[0] and sorted(sexpr.tokenize(t1[1])) == sorted(sexpr.tokenize(t2[1]))
+                if (a1[0], a1[1] if a1[0] else None) != (a2[0], a2[1] if a2[0] else None) or not same_text or not (private == fresh):
+                    res.bad("C07/query-after-in-place-effect-is-stale", {"step": step, "op": op, "action": name, "args": args,
+                                                                          "mutated": t1[1] if t1[0] else repr(t1[1]), "fresh": t2[1] if t2[0] else repr(t2[1]),
+                                                                          "applicable": [repr(a1[1]), repr(a2[1])]})
+                    return feats
+            feats.add("in-place-effect")
         elif kind == "print":
             slot = op["d"] % len(W.domains)
             si, dom, objs = W.domains[slot]
@@ -275,6 +303,22 @@ def run_history(case, res):
     return feats
 
 
+def rebuild_from_attributes(state):
+    """A fresh State with the same content, read through the containers (not through serialize())."""
+    from collections import defaultdict
+    from pddl_plus_parser.models import GroundedPredicate, PDDLFunction, State
+    preds = defaultdict(set)
+    for key, group in state.state_predicates.items():
+        for p in group:
+            preds[key].add(GroundedPredicate(p.name, dict(p.signature), dict(p.object_mapping), p.is_positive))
+    fl = {}
+    for key, f in state.state_fluents.items():
+        g = PDDLFunction(f.name, dict(f.signature), dict(f.repeating_variables))
+        g.set_value(f.value)
+        fl[key] = g
+    return State(preds, fl, is_init=state.is_init)
+
+
 def conflicting(spec, a, args, lib_state):
     try:
         st = read_lib_state(lib_state)
@@ -287,6 +331,25 @@ def conflicting(spec, a, args, lib_state):
         return True
     except Exception:
         return True
+
+
+def validate_spec(spec):
+    """States of a history may leave fluents undefined (purity does not need the reference semantics)."""
+    w = pddl.World(spec["dom"], spec["objects"])
+    names = [n for n, _ in spec["objects"]]
+    if len(set(names)) != len(names) or set(names) & {c for c, _ in spec["dom"]["constants"]}:
+        raise pddl.Invalid("object names")
+    atoms, fls = set(w.ground_atoms()), set(w.ground_fluents())
+    for st in spec["states"]:
+        if not {tuple(f) for f in st["facts"]} <= atoms:
+            raise pddl.Invalid("state fact outside the universe")
+        keys = [tuple(k) for k, _ in st["fluents"]]
+        if not set(keys) <= fls or len(set(keys)) != len(keys):
+            raise pddl.Invalid("state fluent outside the universe")
+    for n, a in spec["calls"]:
+        act = pddl.find_action(spec["dom"], n)
+        if len(a) != len(act["params"]) or any(o not in w.objects or not w.types.is_sub(w.objects[o], t) for o, (_, t) in zip(a, act["params"])):
+            raise pddl.Invalid("call")
 
 
 def reset_globals():
@@ -353,7 +416,14 @@ def check_threads(case, res):
     results, steps = sched.TwoThreadScheduler(case["switch"], prefix).run(bodies[0], bodies[1])
     for i, (r, base) in enumerate(zip(results, alone)):
         exp = ("ok", base[1]) if base[0] else ("exc", None)
-        if r[0] != exp[0] or (r[0] == "ok" and r[1] != exp[1]):
+        same = r[0] == exp[0] and (r[0] != "ok" or r[1] == exp[1])
+        if not same and r[0] == "ok" == exp[0] and case["threads"][i]["kind"] == "apply":
+            # float sums may differ in the last digit between two iteration orders of the effect sets
+            try:
+                same = pddl.states_equal(unjstate(json.loads(r[1])), unjstate(json.loads(exp[1])))
+            except Exception:
+                same = False
+        if not same:
             res.bad(f"C07/threads/result-differs-from-sequential/{case['threads'][i]['kind']}",
                     {"threads": case["threads"], "switch": case["switch"], "thread": i, "alone": repr(base[1])[:500], "interleaved": repr(r[1])[:500],
                      "domain": sexpr.flat(pddl.domain_tree(spec["dom"]))})
@@ -384,8 +454,7 @@ def check_case(case):
         return res
     for spec in case["specs"]:
         pddl.validate_domain(spec["dom"], spec["objects"])
-        w = pddl.validate_probes(spec["dom"], spec["objects"],
-                                 [{"action": n, "args": a, "state": s} for n, a in spec["calls"] for s in spec["states"][:1]])
+        validate_spec(spec)
     feats = run_history(case, res)
     res.classes = sorted(feats) or ["plain"]
     res.nontrivial = bool(feats)
@@ -396,7 +465,12 @@ def check_case(case):
 def gen_spec(ch, ft):
     dom, objects = G.gen_domain(ch, ft)
     world = pddl.World(dom, objects)
-    states = [jstate(G.gen_state(ch, world)) for _ in range(ch.int(1, 3))]
+    states = []
+    for _ in range(ch.int(1, 3)):
+        facts, fl = G.gen_state(ch, world)
+        if ch.flag(0.4):    # leave some fluents undefined: an effect may then create them
+            fl = {k: v for k, v in fl.items() if not ch.flag(0.4)}
+        states.append(jstate((facts, fl)))
     calls = []
     for a in dom["actions"]:
         for _ in range(2):
@@ -415,7 +489,7 @@ def gen(ch, tier):
     ops = [{"op": "parse_domain", "spec": 0}, {"op": "state", "d": 0, "s": 0, "via": "problem"}, {"op": "ground", "d": 0, "c": 0}]
     n = ch.int(4, 30 if tier == "quick" else 60)
     for _ in range(n):
-        k = ch.weighted([(5, "apply"), (3, "applicable"), (2, "ground"), (2, "state"), (2, "print"), (1, "parse_domain"),
+        k = ch.weighted([(5, "apply"), (3, "applicable"), (2, "ground"), (2, "state"), (2, "print"), (2, "inplace_effect"), (1, "parse_domain"),
                          (1, "export_domain"), (1, "export_trajectory"), (1, "combine"), (1, "fresh_domain")])
         op = {"op": k, "d": ch.int(0, 3), "s": ch.int(0, 7), "o": ch.int(0, 7), "c": ch.int(0, 7)}
         if k == "apply":
